@@ -18,11 +18,11 @@ def op_pre(P, kind):
         (r'auto& self =\s*\*static_cast<operation\*>\(static_cast<done_op\*>\(op\)\);', 'struct io_op* self = VF_OP_OF_DONE(op);'),
         # receiver completion signals -> event stubs (the value / error code argument is kept)
         # UNIFEX_TRY { may-throw stub } UNIFEX_CATCH(...) { B }  ->  { if (stub) goto vf_catch; } if (0) { vf_catch: ; B }   (general rule missing from the table)
-        (r'UNIFEX_TRY\s*\{\s*unifex::set_value\(\s*' + RCV + r',\s*ssize_t\(result\)\);\s*\}\s*UNIFEX_CATCH\s*\(\.\.\.\)\s*\{',
-         '{ if (EV_set_value_maythrow(self, result)) goto vf_catch; } if (0) { vf_catch: ;'),
-        (r'unifex::set_value\(\s*' + RCV + r',\s*ssize_t\(result\)\)', 'EV_set_value(self, result)'),
+        (r'UNIFEX_TRY\s*\{\s*unifex::set_value\(\s*' + RCV + r',\s*ssize_t\(([^()]*)\)\);\s*\}\s*UNIFEX_CATCH\s*\(\.\.\.\)\s*\{',
+         r'{ if (EV_set_value_maythrow(self, \1)) goto vf_catch; } if (0) { vf_catch: ;'),
+        (r'unifex::set_value\(\s*' + RCV + r',\s*ssize_t\(([^()]*)\)\)', r'EV_set_value(self, \1)'),
         (r'unifex::set_error\(\s*' + RCV + r',\s*std::current_exception\(\)\)', 'EV_set_error_exception(self)'),
-        (r'unifex::set_error\(\s*' + RCV + r',\s*std::error_code\{-int\(result\), std::system_category\(\)\}\)', 'EV_set_error(self, -(int)(result))'),
+        (r'unifex::set_error\(\s*' + RCV + r',\s*std::error_code\{([^{},]*), std::system_category\(\)\}\)', r'EV_set_error(self, \1)'),
         (r'unifex::set_done\(' + RCV + r'\)', 'EV_set_done(self)'),
         (r'is_nothrow_receiver_of_v<Receiver, ssize_t>', 'VF_CFG_nothrow'),
         # stop callback (manual_lifetime<callback_type<cancel_callback>>): construction may run request_stop() inline
@@ -49,7 +49,7 @@ def op_pre(P, kind):
 def op_ctx(P, kind):
     return dict(cls=P, members=['context_', 'fd_', 'buffer_', 'receiver_', 'stopCallback_', 'state_'],
                 methods=['start_io'], obj_methods={'start_io': P + '_start_io'},
-                atomic=['state_', 'enqueued_'], pre=op_pre(P, kind),
+                atomic=['state_', 'enqueued_'], pre=op_pre(P, kind), scalars=['int'],
                 typemap=[(r'(?<!struct )\bepoll_event\b', 'struct epoll_event')],
                 post=[(r'struct epoll_event event = \{\};', 'struct epoll_event event = {0};')])
 
@@ -61,14 +61,12 @@ def op_extracts(P, kind, SENDER):
     for k in ('io_flag', 'io_mask', 'cancel_pending_flag', 'cancel_pending_mask'):
         ex['%s_%s' % (P, k)] = dict(file=H, kind='expr', within=W, sig=r'static constexpr std::uint32_t %s = ([^;]*);' % k)
     ex[P + '_state_init'] = dict(file=H, kind='expr', within=W, sig=r'std::atomic<std::uint32_t> state_ = ([^;]*);')
-    ex[P + '_start'] = dict(file=H, within=W, ctx=c, sig=r'void start\(\) noexcept', must_contain=[r'on_schedule_complete', r'start_io\(\)'])
+    ex[P + '_start'] = dict(file=H, within=W, ctx=c, sig=r'void start\(\) noexcept')
     ex[P + '_on_schedule_complete'] = dict(file=H, within=W, ctx=c, sig=r'static void on_schedule_complete\(operation_base\* op\) noexcept')
-    ex[P + '_start_io'] = dict(file=H, within=W, ctx=c, sig=r'void start_io\(\) noexcept',
-                               must_contain=[r'EPOLL_CTL_ADD', r'stopCallback_\.construct', kind + r'v\(fd_, buffer_, 1\)'])
-    ex[P + '_on_complete'] = dict(file=H, within=W, ctx=c, sig=r'static void on_%s_complete\(operation_base\* op\) noexcept' % kind,
-                                  must_contain=[r'EPOLL_CTL_DEL', r'stopCallback_\.destruct'])
+    ex[P + '_start_io'] = dict(file=H, within=W, ctx=c, sig=r'void start_io\(\) noexcept')
+    ex[P + '_on_complete'] = dict(file=H, within=W, ctx=c, sig=r'static void on_%s_complete\(operation_base\* op\) noexcept' % kind)
     ex[P + '_complete_with_done'] = dict(file=H, within=W, ctx=c, sig=r'static void complete_with_done\(operation_base\* op\) noexcept')
-    ex[P + '_request_stop'] = dict(file=H, within=W, ctx=c, sig=r'void request_stop\(\) noexcept', must_contain=[r'EPOLL_CTL_DEL', r'schedule_remote'])
+    ex[P + '_request_stop'] = dict(file=H, within=W, ctx=c, sig=r'void request_stop\(\) noexcept')
     return ex
 
 
